@@ -561,6 +561,13 @@ def standin_final_density_scenarios(tier, seed):
         ("classical control after an asymmetric preparation, no noise", cirq.Circuit(cirq.X(q[0]) ** 0.3, cirq.T(q[0]), cirq.measure(q[0], key="k"), cirq.Y(q[1]).with_classical_controls("k") ** 0.5 if False else cirq.X(q[1]).with_classical_controls("k"), cirq.Y(q[1]) ** 0.3, cirq.H(q[2])), None),
         ("two controls on two keys, no noise", cirq.Circuit(cirq.H(q[0]), cirq.X(q[2]) ** 0.5, cirq.measure(q[0], key="k"), cirq.measure(q[2], key="m"), cirq.X(q[1]).with_classical_controls("k"), cirq.Z(q[0]).with_classical_controls("m"), cirq.H(q[0])), None),
     ]
+    # readout confusion on a pair named in DESCENDING order (the matrix is not symmetric under exchanging the two qubits), followed by a control:
+    # the measurement is deferred, so the confusion acts on the stand-in qubits of the deferred measurement
+    M_ = np.array([[0.7, 0.3, 0.0, 0.0], [0.0, 1.0, 0.0, 0.0], [0.1, 0.0, 0.5, 0.4], [0.0, 0.2, 0.0, 0.8]])
+    for key_ in ((1, 0), (0, 1)):
+        for prep in ([cirq.X(q[0])], [cirq.X(q[0]) ** 0.5, cirq.X(q[1]) ** 0.3]):
+            scen.append((f"confusion map on indices {key_} of a two-qubit measurement, then a control, no noise",
+                         cirq.Circuit(prep, cirq.measure(q[0], q[1], key="k", confusion_map={key_: M_}), cirq.X(q[2]).with_classical_controls("k")), None))
     cases, fails = 0, []
     import itertools as _it
     runs = []
@@ -577,7 +584,7 @@ def standin_final_density_scenarios(tier, seed):
             kw = {} if explicit is None else {"qubit_order": explicit}
             got = cirq.final_density_matrix(c, noise=nm, ignore_measurement_results=True, dtype=np.complex128, **kw)
             noisy = cirq.Circuit(nm.noisy_moments(c, sorted(c.all_qubits()))) if nm is not None else c
-            want = sum(r for _, r in ref_density_branches(noisy, order))
+            want = refsim.ref_density(c, order) if name.startswith("confusion map") else sum(r for _, r in ref_density_branches(noisy, order))
         except Exception as ex:
             fails.append(dict(args=dict(scenario=name, circuit=repr(c)), failed="raised", clause=f"raised {ex!r}"))
             continue
